@@ -117,8 +117,11 @@ def gen(rng, tier):
                                                                   fmt_val(items), fmt_val(want))))
             out.append(Case(line, kind="filter-" + kind, theorem=th))
         have = [x for _, x, _ in c["sec"]["streams"]]
-        for _ in range(2):
+        for k in range(4):
             rm = [rng.choice(have + [7, 8000]) for _ in range(rng.randrange(0, 4))]
+            if k >= 2 and have:
+                i = rng.randrange(len(have)); j = rng.randrange(i + 1, len(have) + 1)
+                rm = have[i:j]          # a contiguous run of the PID list (goexec also passes the PMT's own Pids()[i:j])
             qs = have + [7, 0, 8000]
             out.append(Case("pmt.remove %s %s %s" % (hx(p), fmt_val(rm), fmt_val(qs)), kind="remove",
                             theorem="C14_remove_streams"))
